@@ -122,10 +122,9 @@ func frame(vm *goja.Runtime, k string, next goja.Value, id int, obs *[]string, n
 		if err == nil {
 			return
 		}
-		var ex *goja.Exception
-		var ie *goja.InterruptedError
-		var so *goja.StackOverflowError
-		if errors.As(err, &ex) || errors.As(err, &ie) || errors.As(err, &so) {
+		// (decided on the error itself, not on its chain: a Go error that merely wraps an Exception is a Go error)
+		switch err.(type) {
+		case *goja.Exception, *goja.InterruptedError, *goja.StackOverflowError:
 			panic(err)
 		}
 		panic(vm.NewGoError(err))
@@ -150,6 +149,15 @@ func frame(vm *goja.Runtime, k string, next goja.Value, id int, obs *[]string, n
 		})
 	case "reflectErr":
 		return vm.ToValue(func() (goja.Value, error) { return nextC(goja.Undefined()) })
+	case "reflectWrap":
+		return vm.ToValue(func() (goja.Value, error) {
+			v, err := nextC(goja.Undefined())
+			if _, ok := err.(*goja.Exception); ok {
+				return nil, fmt.Errorf("rewrap: %w", err)
+			}
+			rethrow(err)
+			return v, nil
+		})
 	case "reflectNoErr":
 		return vm.ToValue(func() goja.Value {
 			v, err := nextC(goja.Undefined())
@@ -221,6 +229,8 @@ func runChain(c chain) (got string) {
 				switch {
 				case e == errSentinel:
 					return "goerr:sentinel"
+				case e != nil && strings.HasPrefix(e.Error(), "rewrap:"):
+					return "goerr:rewrap"
 				case e != nil && strings.HasPrefix(e.Error(), "ctx:"):
 					return "goerr:wrapped"
 				case e != nil && errors.Is(e, errSentinel):
@@ -243,7 +253,7 @@ func runChain(c chain) (got string) {
 		f = frame(vm, k, f, i, &obs, name)
 	}
 	outer := callable(vm, f)
-	res := map[string]interface{}{"kind": "", "value": "", "isSentinel": "F", "topFrame": "-"}
+	res := map[string]interface{}{"kind": "", "value": "", "isSentinel": "F", "topFrame": "-", "inner": "-"}
 	func() {
 		defer func() {
 			if r := recover(); r != nil {
@@ -278,6 +288,13 @@ func runChain(c chain) (got string) {
 			}
 			if is {
 				res["isSentinel"] = "T"
+			}
+			// the Go error a frame returned is reachable from the host's Exception, and through it the Exception it wrapped
+			if ge := ex.Unwrap(); ge != nil {
+				var ex2 *goja.Exception
+				if errors.As(ge, &ex2) {
+					res["inner"] = name(ex2.Value())
+				}
 			}
 			if st := ex.Stack(); len(st) > 0 && st[0].FuncName() == "thrower" {
 				res["topFrame"] = "thrower"
